@@ -20,6 +20,7 @@ CONFIG = {
     "assumptions": [
         "rule theorems are stated for histories admitted through VerifyExecutorCommitment (correct round, a scheduler never submits a failure) and for rounds with round + |committee| < 2^64 (uint64 `round + idx` in SchedulerRank does not wrap); the wrap-around counterexample is recorded in Props/C11.lean",
         "the committee, the round and the runtime are fixed during a round (the pool is reset on every block and epoch transition)",
+        "failure codes are collapsed to one bit in the model (EC.failure = IsIndicatingFailure); which code was on the wire and what ValidateBasic made of it travels in the line protocol (wire field 0/1/2, fail field from the real commitment), pooldrv generates every code (unknown, state-unavailable, out of range) from schedulers and workers, and the rule check `scheduler's own failure-indicating commitment accepted` is evaluated on what the real code admitted",
         "RAK attestation and runtime messages in VerifyExecutorCommitment are outside the model (non-TEE runtime, no messages)",
         "pointer aliasing is outside the Lean model (commitments are values there, *ExecutorCommitment in Go): that the commitment stored at HighestRank stays byte-identical to what the chosen scheduler signed and that a Normal block carries exactly its header roots is checked model-free by pooldrv on the real executorCommit handler (transactions of 1-6 commitments, scheduler's proposal first / middle / last) and the real tryFinalizeRoundInsideTx (hook VerifExecutorCommit / VerifTryFinalizeRound); signature finalized-header-not-schedulers-commitment",
         "the `finalize` op calls the real tryFinalizeRoundInsideTx (hook go/consensus/cometbft/apps/roothash/export_verif.go) on a RuntimeState holding the real pool inside a mock EndBlock context (no registered nodes, no incoming messages, no slashing configured); the block it emits is compared with the model outcome (Normal with the roots of the chosen commitment / RoundFailed with the previous state root / none)",
